@@ -155,6 +155,7 @@ def run_scenario(sc, peer_factory=None, inv_factory=None, quiesce=True) -> Run:
     peer.default_hops = int(sc.get("hops", 0))
     vnow = 0.0
     seq = [0]
+    old_loops = []
 
     with warnings.catch_warnings(record=True) as wlist:
         warnings.simplefilter("always")
@@ -238,9 +239,11 @@ def run_scenario(sc, peer_factory=None, inv_factory=None, quiesce=True) -> Run:
                 loop.shutdown()
                 break
             if seg_i < len(segments) - 1:
+                if sc.get("keep_loops_open"):
+                    # new_event_loop() + run_until_complete() semantics: the previous loop object stays open (it just no longer runs)
+                    old_loops.append(loop)
+                    continue
                 # asyncio.run() semantics: the loop is closed, the library object lives on
-                for p_sock in list(peer.socks):
-                    pass
                 try:
                     loop.run_until_complete(loop.shutdown_asyncgens())
                 except BaseException:
@@ -248,6 +251,11 @@ def run_scenario(sc, peer_factory=None, inv_factory=None, quiesce=True) -> Run:
                 loop.close()
             else:
                 loop.shutdown()
+        for ol in old_loops:
+            try:
+                ol.shutdown()
+            except BaseException:      # noqa
+                pass
         run.warnings = [f"{w.category.__name__}: {w.message}" for w in wlist
                         if issubclass(w.category, (ResourceWarning, RuntimeWarning))]
     asyncio.set_event_loop(None)
